@@ -168,5 +168,5 @@ MCViews == {[kind |-> "node"], [kind |-> "prod"]}
 ViewsOK ==
     \A n \in Nodes : metric[n].found =>
         \A v \in MCViews : ImplExisting(cache[n], metric[n], v) = Existing(n, v)
-\* non-vacuity witnesses (checked to be REACHABLE by MC_*_reach.cfg expecting a violation is not needed: coverage is used)
+\* non-vacuity: MC_quick.cfg runs with -coverage; an action never taken fails the check (exit 2)
 =============================================================================
